@@ -581,6 +581,32 @@ def structure(rep, R, ix, M):
         OPTS = " ({', '.join(option_strings)})"
         forms = {"{name} {data['name']}{options}", "{name} {data['name']}", "{name} {data['name']}" + OPTS}
         okm = okm and len(line) >= 1 and all(norm.canon_text(l_.args[0]) in forms for l_ in line) and any(norm.canon_text(l_.args[0]) != "{name} {data['name']}" for l_ in line)
+        # a line that reads the local `options` must get its value in the same iteration: an unconditional (re)binding at the top level of
+        # the loop body - or in both branches of an if/else there - precedes it; a binding left over from the previous declaration is not one
+        def binds_options(stmts):
+            for s_ in stmts:
+                if isinstance(s_, ast.Assign) and any(isinstance(t_, ast.Name) and t_.id == "options" for t_ in s_.targets):
+                    return True
+                if isinstance(s_, ast.If) and s_.orelse and binds_options(s_.body) and binds_options(s_.orelse):
+                    return True
+            return False
+
+        def fresh_per_iteration(stmts):
+            """every statement of this block that reads `options` is preceded, in this block or an enclosing one of the loop body, by a binding"""
+            bound = False
+            for s_ in stmts:
+                reads = any(isinstance(x, ast.Name) and x.id == "options" and isinstance(x.ctx, ast.Load) for x in ast.walk(s_))
+                if isinstance(s_, ast.If):
+                    if not bound and not (fresh_per_iteration(s_.body) and fresh_per_iteration(s_.orelse)):
+                        return False
+                elif reads and not bound:
+                    return False
+                bound = bound or binds_options([s_])
+            return True
+        uses_local = any(norm.canon_text(l_.args[0]) == "{name} {data['name']}{options}" for l_ in line)
+        if uses_local:
+            rep.check(fresh_per_iteration(loops[0].body), R, ix.site(f, loops[0]), "the option text of a metadata line is computed for that line (bound anew in every iteration before it is written)",
+                      "`options` can still hold the text of the previous declaration when the line is written (the type line repeats the target's options)", key="meta|options fresh")
         opt = [n for n in ast.walk(loops[0]) if isinstance(n, ast.Assign) and u(n.targets[0]) == "options" and isinstance(n.value, ast.Call)]
         okm = okm and len(opt) <= 1 and all(norm.canon_text(o_.value) == OPTS for o_ in opt) and (bool(opt) or any(norm.canon_text(l_.args[0]).endswith(OPTS) for l_ in line))
     rep.check(okm, R, ix.site(f, loops[0]) if loops else ix.site(f), "target and type lines are '<keyword> <name>[ (<k>=<v>, ...)]' in that order, written only when a name is set", key="meta|target type")
@@ -594,7 +620,15 @@ def structure(rep, R, ix, M):
     three = sorted(["({', '.join(args)}, {', '.join(kwargs)})", "({', '.join(args)})", "({', '.join(kwargs)})"])
     rep.check(args in ([one_piece], three) or (inline and args == []), R, ix.site(f),
               "arguments are '(<positional>, <keyword>)' with positional arguments first", "got %s" % args, key="stmt|arguments")
-    modes = sorted(str(norm.canon_text(n.value)) if norm.canon_text(n.value) is not None else " ".join(u(n.value).split()) for n in walk_shallow(fn) if isinstance(n, ast.Assign) and u(n.targets[0]) == "modes")
+    mvals = []
+    for n in walk_shallow(fn):
+        if isinstance(n, ast.Assign) and u(n.targets[0]) == "modes":
+            # a conditional expression is the two-branch assignment written in one statement
+            if isinstance(n.value, ast.IfExp) and " ".join(u(n.value.test).split()) in ("len(op['modes']) == 1", "len(op['modes']) != 1"):
+                mvals += [n.value.body, n.value.orelse]
+            else:
+                mvals.append(n.value)
+    modes = sorted(str(norm.canon_text(v_)) if norm.canon_text(v_) is not None else " ".join(u(v_).split()) for v_ in mvals)
     okmodes = modes in (["[{', '.join(('{}'.format(m) for m in op['modes']))}]", "op['modes'][0]"], ["[{', '.join((str(m) for m in op['modes']))}]", "op['modes'][0]"],
                         ["[{', '.join((f'{m}' for m in op['modes']))}]", "op['modes'][0]"])
     rep.check(okmodes, R, ix.site(f), "modes are written as a single integer or '[m1, m2, ...]' formatted element by element", "got %s" % modes, key="stmt|modes")
@@ -724,6 +758,13 @@ def arrays(rep, R, ix, M, L):
             return [x for x in stmts if x is not app[0]] + app
         b2, r2 = append_last(list(body)), append_last(ast.parse(ref).body)
         moved = b2 is not None and r2 is not None and (norm.alpha(b2, loc) == norm.alpha(r2, ref_loc) or fstring_equal(b2, r2, loc, ref_loc))
+        # the declaration may also be spliced in with one slice assignment instead of line-by-line inserts (same lines, same place)
+        ref_slice = ref.replace("for idx, line in enumerate(bb_array):\n    script.insert(array_insert + idx, line)\n", "script[array_insert:array_insert] = bb_array\n")
+        rs = ast.parse(ref_slice).body
+        rs2 = append_last(rs)
+        ref_loc_s = ref_loc - {"idx", "line"}
+        moved = moved or norm.alpha(list(body), loc) == norm.alpha(rs, ref_loc_s) or fstring_equal(list(body), rs, loc, ref_loc_s) or (
+            b2 is not None and rs2 is not None and (norm.alpha(b2, loc) == norm.alpha(rs2, ref_loc_s) or fstring_equal(b2, rs2, loc, ref_loc_s)))
         if txt and (got_c == want_c or fstring_equal(body, ast.parse(ref).body, loc, ref_loc) or moved):
             rep.ok(R, ix.site(s, chain_), "%s: every array value gets its own declaration A<n>, inserted line by line at the insertion point, which then advances by the number of lines" % slot.name)
         else:
